@@ -76,6 +76,8 @@ def body_widths(sec):
     elif len(w) == 1 and len(names) > 1:
         w = list(w) * len(names)
     disp = set(R.displayed_columns(sec))
+    if len(w) == len(disp) < len(names):
+        return list(w)          # documented form: widths listed for the displayed columns only
     return [x for x, n in zip(w, names) if n in disp]
 
 
